@@ -53,7 +53,7 @@ def kmers(X, k, scores=None):
 	else:
 		score_ = torch.ones(1, dtype=torch.float32).expand_as(idxs)
 
-	X_kmers = torch.zeros((X.shape[0], n**k))
+	X_kmers = torch.zeros((X.shape[0], n**k), dtype=torch.float32)
 	X_kmers.scatter_add_(1, idxs, score_)
 	return X_kmers
 
